@@ -124,8 +124,13 @@ func poolOf(c *x509.Certificate) *x509.CertPool {
 // every manifest entry resolves to a stored, parseable certificate and a recorded primary signing
 // key has a certificate that verifies under the stored root certificate.
 func StoreConsistent(objs map[string][]byte, at time.Time) error {
+	return StoreConsistentLayout(objs, at, rootPath, certDir)
+}
+
+// StoreConsistentLayout: the same for an authority whose --root_path / --cert_dir were spelled otherwise.
+func StoreConsistentLayout(objs map[string][]byte, at time.Time, root, certs string) error {
 	ctx := fx.Ctx(nil, false, false)
-	ca := GcscaOn(objs)
+	ca := GcscaOnLayout(objs, root, certs)
 	mb, ok := objs[bucket+"/"+gcsca.ManifestObjectName]
 	if !ok {
 		return nil // no manifest: nothing is listed
